@@ -51,6 +51,24 @@ func Adversarial(size int) []AdvCase {
 	sb.WriteString("fragment F" + itoa(k) + " on __Schema { types { name } }\n")
 	add("introspection-fanout", sb.String())
 
+	// the same fan-out closed into a cycle (the last fragment spreads the first again): a memo that
+	// is dropped whenever an exploration was cut at a fragment on the current path never fills
+	for _, root := range []string{"__schema", "__type(name: \"Query\")"} {
+		on := "__Schema"
+		leaf := "description"
+		if root != "__schema" {
+			on = "__Type"
+			leaf = "name"
+		}
+		sb.Reset()
+		sb.WriteString("{ " + root + " { ...F0 } }\n")
+		for i := 0; i < k; i++ {
+			sb.WriteString("fragment F" + itoa(i) + " on " + on + " { ...F" + itoa(i+1) + " ...F" + itoa(i+1) + " }\n")
+		}
+		sb.WriteString("fragment F" + itoa(k) + " on " + on + " { " + leaf + " ...F0 }\n")
+		add("introspection-fanout-cycle:"+on, sb.String())
+	}
+
 	sb.Reset()
 	sb.WriteString("{ ...F0 }\n")
 	for i := 0; i < k; i++ {
